@@ -7,7 +7,7 @@
 //! comparison of the real code against itself.  Last line of stdout is one JSON object:
 //!   {"status":"found","property":..,"input":..,"observed":..,"expected":..}
 //!   {"status":"not-found","tried":N}
-use micro_http::{Body, EndpointHandler, HttpConnection, HttpRoutes, HttpServer, Method, Request, Response, StatusCode, Version};
+use micro_http::{Body, Encoding, EndpointHandler, Headers, HttpConnection, HttpHeaderError, HttpRoutes, HttpServer, MediaType, Method, Request, RequestError, Response, StatusCode, Version};
 use std::io::{Read, Write};
 use std::os::unix::io::AsRawFd;
 use std::os::unix::net::UnixStream;
@@ -319,6 +319,7 @@ fn search_stream(prop: &str, budget: usize) {
         let stream = gen_stream(&mut rng, limit);
         let expect = reference(&stream, limit);
         let nseg = if prop == "C02" { 1 } else { 3 };
+        let mut first: Option<Outcome> = None;
         for k in 0..nseg {
             let max = [1usize, 2, 7, 64, 512, 1024][rng.below(6)];
             let segs = if prop == "C02" || k == 0 { segment(&mut rng, &stream, 1024, false) } else { segment(&mut rng, &stream, max, true) };
@@ -334,11 +335,22 @@ fn search_stream(prop: &str, budget: usize) {
                     (lim_err(&got.error) == lim_err(&expect.error)) && (!lim_err(&expect.error) || got.error == expect.error)
                         && got.delivered.iter().all(|r| r.body.as_ref().map_or(true, |b| b.len() <= limit && b.len() == r.cl as usize))
                 }
+                // C01 is about the SPLIT: every segmentation must give what the first (coarsest) one gave; against the
+                // reference only order / exactly-once / exact bodies of what is delivered are compared
+                "C01" => first.as_ref().map_or(true, |f| got.delivered == f.delivered && got.error == f.error)
+                    && got.delivered.iter().zip(expect.delivered.iter()).all(|(a, b)| a == b) && got.delivered.len() <= expect.delivered.len(),
                 _ => got.delivered == expect.delivered && got.error == expect.error,
             };
+            if !same && prop == "C01" && first.is_some() {
+                let f = first.as_ref().unwrap();
+                if got.delivered != f.delivered || got.error != f.error {
+                    found(prop, format!("limit={} reads: {}", limit, show_segs(&segs)), format!("{:?}", got), format!("what the same stream gives when read in 1024-byte pieces: {:?}", f));
+                }
+            }
             if !same {
                 found(prop, format!("limit={} reads: {}", limit, show_segs(&segs)), format!("{:?}", got), format!("{:?}", expect));
             }
+            if first.is_none() { first = Some(got); }
         }
     }
     println!("{{\"status\":\"not-found\",\"tried\":{}}}", tried);
@@ -719,6 +731,196 @@ fn search_c16(_budget: usize) {
     println!("{{\"status\":\"not-found\",\"tried\":{}}}", tried);
 }
 
+// ---------------------------------------------------------------- C14: one-shot vs incremental
+#[derive(Debug, Clone, PartialEq)]
+struct Full { method: String, uri: String, version: String, cl: u32, expect: bool, chunked: bool, accept_json: bool, custom: Vec<(String, String)>, body: Option<Vec<u8>> }
+fn full(r: &Request) -> Full {
+    let mut custom: Vec<(String, String)> = r.headers.custom_entries().iter().map(|(k, v)| (k.clone(), v.clone())).collect();
+    custom.sort();
+    Full { method: format!("{:?}", r.method()), uri: r.uri().get_abs_path().to_string() + "|" + &format!("{:?}", r.uri()), version: format!("{:?}", r.http_version()),
+           cl: r.headers.content_length(), expect: r.headers.expect(), chunked: r.headers.chunked(), accept_json: r.headers.accept() == MediaType::ApplicationJson,
+           custom, body: r.body.as_ref().map(|b| b.raw().to_vec()) }
+}
+fn feed(slice: &[u8], extra: &[u8]) -> (Vec<Full>, Option<String>) {
+    let (mut c, mut tx) = new_conn(Some(51200));
+    let mut out = vec![];
+    let mut err = None;
+    for piece in [slice, extra] {
+        for chunk in piece.chunks(1024) {
+            tx.write_all(chunk).unwrap();
+            loop {
+                match c.try_read() {
+                    Ok(()) => { while let Some(r) = c.pop_parsed_request() { out.push(full(&r)); } }
+                    Err(e) => { let k = err_kind(&e); if k != "StreamReadError" { while let Some(r) = c.pop_parsed_request() { out.push(full(&r)); } err = Some(k); } break; }
+                }
+            }
+            if err.is_some() { return (out, err); }
+        }
+    }
+    (out, err)
+}
+fn search_c14(budget: usize) {
+    let mut rng = Rng(0x14c0ffee);
+    let mut tried = 0usize;
+    let probe = b"PUT /probe HTTP/1.1\r\nContent-Length: 2\r\n\r\nzz";
+    let extras: Vec<&[u8]> = vec![b"X-Note: first\nX-Other: second\r\n", b"X-A: 1\r\nX-A: 2\r\n", b"Accept: application/json\r\n", b"Transfer-Encoding: chunked\r\n", b"Content-Type: text/html\r\n", b"A:b\nContent-Length: 3\r\n"];
+    while tried < budget.max(3000) {
+        let mut slice = gen_request(&mut rng, 1500);
+        // sometimes splice an extra header line in front of the blank line, add or remove trailing bytes, or corrupt a byte
+        if rng.chance(40) { if let Some(p) = slice.windows(4).position(|w| w == b"\r\n\r\n") { let e = extras[rng.below(extras.len())]; let mut v = slice[..p + 2].to_vec(); v.extend_from_slice(e); v.extend_from_slice(&slice[p + 2..]); slice = v; } }
+        match rng.below(10) { 0 => slice.extend_from_slice(b"xy"), 1 => { let n = slice.len(); if n > 1 { slice.truncate(n - 1); } }, 2 => { let i = rng.below(slice.len()); slice[i] = b"\r\n :xG"[rng.below(6)]; }, 3 => { let mut v = b"\r\n".to_vec(); v.extend_from_slice(&slice); slice = v; }, _ => {} }
+        tried += 1;
+        let one = Request::try_from(&slice, None);
+        // the caller's maximum: rejected iff the length reaches it
+        let lim_ok = Request::try_from(&slice, Some(slice.len() + 1)).is_ok();
+        let lim_eq = Request::try_from(&slice, Some(slice.len())).is_ok();
+        if lim_ok != one.is_ok() || lim_eq { found("C14", format!("Request::try_from({}, max_len)", esc(&slice)), format!("max=len+1: {}, max=len: {}", lim_ok, lim_eq), format!("max=len+1: {}, max=len: false", one.is_ok())); }
+        let (got, err) = feed(&slice, probe);
+        let line_ok = slice.split(|&b| b == b'\n').all(|l| l.len() + 1 <= 1024);
+        if let Ok(r) = &one {
+            let f = full(r);
+            // "within the line and payload limits": the specification parser reports no (limit) error before the first request
+            let within = { let rf = reference(&slice, 51200); !rf.delivered.is_empty() };
+            if line_ok && within && f.cl as usize <= 51200 && (got.is_empty() || got[0] != f) {
+                found("C14", format!("slice {}", esc(&slice)), format!("connection: first request {:?} error {:?}", got.get(0), err), format!("what Request::try_from accepted: {:?}", f));
+            }
+        } else {
+            // connection turned the slice into exactly one request with nothing left over (the probe comes out intact as the second)
+            if err.is_none() && got.len() == 2 && got[1].uri.starts_with("/probe") && got[1].body.as_deref() == Some(&b"zz"[..]) {
+                let get_with_body = got[0].method == "Get" && got[0].cl > 0;
+                if !get_with_body {
+                    found("C14", format!("slice {}", esc(&slice)), format!("Request::try_from rejects it: {:?}", one.as_ref().err()), format!("accepted like the connection, which delivered exactly {:?}", got[0]));
+                }
+            }
+        }
+    }
+    println!("{{\"status\":\"not-found\",\"tried\":{}}}", tried);
+}
+
+// ---------------------------------------------------------------- C15: header rules
+// reference implementation written from the property statement (independent of src/common/headers.rs)
+#[derive(Clone, Debug, PartialEq)]
+struct RefHeaders { content_length: u32, expect: bool, chunked: bool, accept_json: bool, custom: std::collections::BTreeMap<String, String> }
+#[derive(Clone, Debug, PartialEq)]
+enum RefFault { Ignored, Fatal(&'static str) }
+
+fn ref_trim(s: &str) -> &str { s.trim_matches(|c: char| c.is_whitespace()) }
+fn ref_media(v: &str) -> Option<bool> { match ref_trim(v) { "text/plain" if !v.is_empty() => Some(false), "application/json" if !v.is_empty() => Some(true), _ => None } }
+fn ref_encoding_ok(v: &str) -> bool {
+    if v.is_empty() { return false; }
+    for item in v.split(',') {
+        let t = ref_trim(item);
+        if t == "identity;q=0" { return false; }
+        if t == "*;q=0" && !v.contains("identity") { return false; }
+    }
+    true
+}
+fn ref_line(h: &mut RefHeaders, line: &[u8]) -> Result<(), RefFault> {
+    let text = match std::str::from_utf8(line) { Ok(t) => t, Err(_) => return Err(RefFault::Fatal("InvalidUtf8String")) };
+    let colon = match text.find(':') { Some(i) => i, None => return Err(RefFault::Fatal("InvalidFormat")) };
+    let (name, value) = (&text[..colon], &text[colon + 1..]);
+    let lname: String = ref_trim(&name.chars().map(|c| c.to_ascii_lowercase()).collect::<String>()).to_string();
+    let v = ref_trim(value);
+    match lname.as_str() {
+        "content-length" => match v.parse::<u32>() { Ok(n) => { h.content_length = n; Ok(()) } Err(_) => Err(RefFault::Fatal("InvalidValue")) },
+        "content-type" => if ref_media(v).is_some() { Ok(()) } else { Err(RefFault::Ignored) },
+        "accept" => match ref_media(v) { Some(j) => { h.accept_json = j; Ok(()) } None => Err(RefFault::Ignored) },
+        "transfer-encoding" => match v { "chunked" => { h.chunked = true; Ok(()) } "identity" => Ok(()), _ => Err(RefFault::Ignored) },
+        "expect" => if v == "100-continue" { h.expect = true; Ok(()) } else { Err(RefFault::Ignored) },
+        "server" => Ok(()),
+        "accept-encoding" => if ref_encoding_ok(v) { Ok(()) } else if v.is_empty() { Err(RefFault::Fatal("InvalidRequest")) } else { Err(RefFault::Fatal("InvalidValue")) },
+        _ => { h.custom.insert(ref_trim(name).to_string(), v.to_string()); Ok(()) }
+    }
+}
+fn fault_of(e: &RequestError) -> RefFault {
+    match e {
+        RequestError::HeaderError(HttpHeaderError::UnsupportedValue(_, _)) => RefFault::Ignored,
+        RequestError::HeaderError(HttpHeaderError::InvalidFormat(_)) => RefFault::Fatal("InvalidFormat"),
+        RequestError::HeaderError(HttpHeaderError::InvalidUtf8String(_)) => RefFault::Fatal("InvalidUtf8String"),
+        RequestError::HeaderError(HttpHeaderError::InvalidValue(_, _)) => RefFault::Fatal("InvalidValue"),
+        RequestError::InvalidRequest => RefFault::Fatal("InvalidRequest"),
+        _ => RefFault::Fatal("other"),
+    }
+}
+fn view(h: &Headers) -> RefHeaders {
+    RefHeaders { content_length: h.content_length(), expect: h.expect(), chunked: h.chunked(), accept_json: h.accept() == MediaType::ApplicationJson,
+                 custom: h.custom_entries().iter().map(|(k, v)| (k.clone(), v.clone())).collect() }
+}
+
+fn search_c15(budget: usize) {
+    let mut rng = Rng(0x15c0ffee);
+    let names = ["Content-Length", "Content-Type", "Expect", "Transfer-Encoding", "Server", "Accept", "Accept-Encoding", "X-Custom", "Foo", "content length", ""];
+    let pads = ["", " ", "\t", "  ", "\u{a0}", "\u{2003}", " \t "];
+    let values: Vec<&str> = vec!["0", "5", "42", "4294967295", "4294967296", "-1", "+7", "1e3", "", "abc", "text/plain", "application/json", "Application/Json", "text/html",
+        "chunked", "identity", "gzip", "Chunked", "100-continue", "100-Continue", "103-checkpoint", "identity;q=0", "*;q=0", "gzip, identity;q=0", "gzip, *;q=0",
+        "identity, *;q=0", "deflate", "gzip,deflate", " identity;q=0 ", "a:b", "x y", "\u{e9}", "first\nX-Other: second", "1\nContent-Length: 7", "v\r"];
+    let mut tried = 0usize;
+    let mk_line = |rng: &mut Rng| -> Vec<u8> {
+        let mut name: String = names[rng.below(names.len())].to_string();
+        // random letter-case pattern
+        name = name.chars().map(|c| if rng.chance(40) { if c.is_ascii_lowercase() { c.to_ascii_uppercase() } else { c.to_ascii_lowercase() } } else { c }).collect();
+        let v = values[rng.below(values.len())];
+        let mut line = format!("{}{}{}", pads[rng.below(pads.len())], name, pads[rng.below(pads.len())]);
+        let colons = match rng.below(10) { 0 => 0, 1 => 2, _ => 1 };
+        if colons >= 1 { line.push(':'); line.push_str(pads[rng.below(pads.len())]); line.push_str(v); line.push_str(pads[rng.below(pads.len())]); }
+        if colons == 2 { line.push_str(": 2"); }
+        let mut b = line.into_bytes();
+        if rng.chance(3) { b.push(0xff); }
+        b
+    };
+    for _ in 0..budget.max(2000) {
+        // single lines against the rules, on a header set with history
+        let n = 1 + rng.below(6);
+        let mut real = Headers::default();
+        let mut model = RefHeaders { content_length: 0, expect: false, chunked: false, accept_json: false, custom: Default::default() };
+        let mut block: Vec<u8> = vec![];
+        let mut lines: Vec<Vec<u8>> = vec![];
+        let mut expected_block: Result<RefHeaders, &'static str> = Err("");
+        let mut bm = model.clone();
+        let mut block_done = false;
+        for _ in 0..n {
+            let line = mk_line(&mut rng);
+            let got = real.parse_header_line(&line);
+            let want = ref_line(&mut model, &line);
+            tried += 1;
+            let g = got.as_ref().map(|_| ()).map_err(fault_of);
+            if g != want || view(&real) != model {
+                found("C15", format!("parse_header_line({}) after {} earlier lines", esc(&line), lines.len()),
+                      format!("{:?}, headers {:?}", g, view(&real)), format!("{:?}, headers {:?}", want, model));
+            }
+            // block model (the same lines, CRLF-joined, stop at the first fatal fault or empty line)
+            if !block_done {
+                if line.is_empty() { expected_block = Ok(bm.clone()); block_done = true; }
+                else if line.windows(2).any(|w| w == b"\r\n") { /* cannot happen with this generator */ }
+                else { match ref_line(&mut bm, &line) { Ok(()) | Err(RefFault::Ignored) => {}, Err(RefFault::Fatal(k)) => { expected_block = Err(k); block_done = true; } } }
+            }
+            block.extend_from_slice(&line); block.extend_from_slice(b"\r\n");
+            lines.push(line);
+        }
+        if !block_done { expected_block = Ok(bm.clone()); }
+        block.extend_from_slice(b"\r\n");
+        if std::str::from_utf8(&block).is_err() { expected_block = Err("InvalidRequest"); }
+        let gb = Headers::try_from(&block);
+        let g = match &gb { Ok(h) => Ok(view(h)), Err(e) => Err(match fault_of(e) { RefFault::Fatal(k) => k, RefFault::Ignored => "ignored-fault-returned" }) };
+        if g != expected_block {
+            found("C15", format!("Headers::try_from({})", esc(&block)), format!("{:?}", g), format!("{:?}", expected_block));
+        }
+    }
+    // media types and encodings directly
+    for v in values.iter() {
+        for l in pads.iter() { for r in pads.iter() {
+            let s = format!("{}{}{}", l, v, r);
+            tried += 1;
+            let gm = MediaType::try_from(s.as_bytes()).ok().map(|m| m == MediaType::ApplicationJson);
+            let wm = if s.is_empty() { None } else { ref_media(&s) };
+            if gm != wm { found("C15", format!("MediaType::try_from({})", esc(s.as_bytes())), format!("{:?}", gm), format!("{:?}", wm)); }
+            let ge = Encoding::try_from(s.as_bytes()).is_ok();
+            if ge != ref_encoding_ok(&s) { found("C15", format!("Encoding::try_from({})", esc(s.as_bytes())), format!("{}", ge), format!("{}", ref_encoding_ok(&s))); }
+        } }
+    }
+    println!("{{\"status\":\"not-found\",\"tried\":{}}}", tried);
+}
+
 // ---------------------------------------------------------------- C17: router
 struct CountingHandler { id: usize, calls: std::sync::Arc<std::sync::Mutex<Vec<usize>>> }
 impl EndpointHandler<u8> for CountingHandler {
@@ -865,6 +1067,8 @@ fn main() {
         "C11" => search_c11(budget),
         "C12" => search_c12(budget),
         "C16" => search_c16(budget),
+        "C14" => search_c14(budget),
+        "C15" => search_c15(budget),
         "C17" => search_c17(budget),
         _ => println!("{{\"status\":\"not-found\",\"tried\":0}}"),
     }
